@@ -27,6 +27,16 @@ CLAIMED = {
         "Trusted: reference scan with checked u128 arithmetic; one documented leniency (optional sign followed by a non-digit: Empty or InvalidDigit / Ok((0,i)) accepted).",
         "exhaustive enumeration + property-based testing against a reference scanner (model-based differential)",
     ),
+    "C05": (
+        "Per compiled radix format (34 non-decimal radices, 5 mixed mantissa/base pairs x 2 exponent-digit radices, 12 exponent-digit-radix variants) and per float type: strings from exact radix-r expansions of float midpoints / values (truncated, perturbed, re-laid-out, upper and lower case digits), grammar-random strings up to 2000 digits with exponents beyond i64, fast-path region and range edges, compared bit-exactly (parse, parse_partial, parse_partial+junk) with the exact rational oracle for mantissa x base^exponent.",
+        "Trusted: exact big-rational rounding oracle (vcore), the harness's own decoder of the packed format; formats are limited to the compiled catalogue (core group).",
+        "property-based testing (proptest, one runner per format) against an exact-arithmetic reference oracle",
+    ),
+    "C19": (
+        "The C01/C05 generators for STANDARD and every compiled radix / mixed-base format; each input is parsed with lossy=false and lossy=true (complete, and partial with trailing junk): identical accept/reject, count, error; accepted results within one bit-pattern neighbour of the exactly rounded value, identical for exact-fast-path inputs and for zero/infinite results (except in the last rounding zone next to MAX / min subnormal, where the statement's neighbour clause also applies and both outcomes are accepted).",
+        "Trusted: exact oracle; the harness's (conservative) definition of 'decided by the exact fast path'.",
+        "property-based testing: metamorphic relation (lossy vs non-lossy) plus an exact reference oracle",
+    ),
 }
 
 PENDING_REASON = "check not built yet (work in progress; see DESIGN.md section 14 for the order)"
